@@ -84,6 +84,10 @@ func (w *World) verifyFunc(fc *FuncContract, props []string) (res *UnitResult) {
 		freevars = append(freevars, v)
 		x.regs[fv] = v
 	}
+	for _, g := range fc.Ghosts {
+		tv := x.eval(g.Init, x.envFor(fn, st, st, nil))
+		st.ghost[g.Name] = x.scalar(tv.V)
+	}
 	x.entry = st.clone()
 	// requires: assumed, with a vacuity guard
 	env := x.envFor(fn, st, x.entry, nil)
